@@ -5,6 +5,7 @@ package main
 
 import (
 	"go/ast"
+	"go/token"
 	"regexp"
 	"strings"
 
@@ -171,8 +172,35 @@ func flattenBody(p *packages.Package, fd *ast.FuncDecl, subst map[string]string,
 		}
 	}
 	walk = func(list []ast.Stmt) {
-		for _, s := range list {
-			walkStmt(s)
+		for i := 0; i < len(list); i++ {
+			// `var x T; if c { x = B } else { x = A }` is `x := A; if c { x = B }`
+			if ds, ok := list[i].(*ast.DeclStmt); ok && i+1 < len(list) {
+				if gd, ok := ds.Decl.(*ast.GenDecl); ok && gd.Tok == token.VAR && len(gd.Specs) == 1 {
+					if vs, ok := gd.Specs[0].(*ast.ValueSpec); ok && len(vs.Names) == 1 && len(vs.Values) == 0 {
+						if is, ok := list[i+1].(*ast.IfStmt); ok && is.Init == nil {
+							if eb, ok := is.Else.(*ast.BlockStmt); ok && len(is.Body.List) == 1 && len(eb.List) == 1 {
+								a1, ok1 := is.Body.List[0].(*ast.AssignStmt)
+								a2, ok2 := eb.List[0].(*ast.AssignStmt)
+								o := p.TypesInfo.Defs[vs.Names[0]]
+								single := func(a *ast.AssignStmt) bool {
+									if a == nil || a.Tok != token.ASSIGN || len(a.Lhs) != 1 || len(a.Rhs) != 1 {
+										return false
+									}
+									id, ok := a.Lhs[0].(*ast.Ident)
+									return ok && p.TypesInfo.Uses[id] == o
+								}
+								if ok1 && ok2 && single(a1) && single(a2) {
+									walkStmt(&ast.AssignStmt{Lhs: []ast.Expr{vs.Names[0]}, Tok: token.DEFINE, Rhs: a2.Rhs})
+									walkStmt(&ast.IfStmt{If: is.If, Cond: is.Cond, Body: is.Body})
+									i++
+									continue
+								}
+							}
+						}
+					}
+				}
+			}
+			walkStmt(list[i])
 		}
 	}
 	walk(fd.Body.List)
